@@ -413,6 +413,7 @@ type State struct {
 	vars   map[*types.Var]*Term
 	heap   map[string]*Term
 	path   []*Term
+	pk     []bool // parallel to path: true = branch condition, false = derived fact
 	locks  map[string]string
 	defers []*deferEntry
 	snaps  map[string]*State
@@ -437,6 +438,7 @@ func (s *State) Clone() *State {
 		n.locks[k] = v
 	}
 	n.path = append([]*Term(nil), s.path...)
+	n.pk = append([]bool(nil), s.pk...)
 	n.defers = append([]*deferEntry(nil), s.defers...)
 	return n
 }
@@ -446,6 +448,16 @@ func (s *State) Assume(t *Term) {
 		return
 	}
 	s.path = append(s.path, t)
+	s.pk = append(s.pk, false)
+}
+
+// Branch records a control-flow condition (used as the guard when states are merged).
+func (s *State) Branch(t *Term) {
+	if t == nil || t.IsTrue() {
+		return
+	}
+	s.path = append(s.path, t)
+	s.pk = append(s.pk, true)
 }
 
 func (s *State) Infeasible() bool {
@@ -617,6 +629,7 @@ func (e *Engine) store(st *State, l *Loc, v *Term) {
 			e.store(st, l.Base, With(b, "arr", Store(Acc(b, "arr"), l.Idx, v)))
 		case b.S.IsMap():
 			inDom := Select(Acc(b, "dom"), l.Idx)
+			st.Assume(Implies(inDom, Ge(Acc(b, "card"), IntLit(1)))) // a key in the domain means a non-empty map
 			nb := Ctor(b.S, Store(Acc(b, "val"), l.Idx, v), Store(Acc(b, "dom"), l.Idx, True), Ite(inDom, Acc(b, "card"), Add(Acc(b, "card"), IntLit(1))))
 			e.store(st, l.Base, nb)
 		case b.S.Kind == SArr:
